@@ -611,6 +611,14 @@ def selftest(seed, n, raws, layouts=None, quiet=False, only_run=None):
     other_env.update({"LANG": "de_DE.UTF-8", "LC_ALL": "de_DE.UTF-8", "LC_NUMERIC": "de_DE.UTF-8", "TZ": "Pacific/Kiritimati", "NO_COLOR": "1",
                       "CLICOLOR": "0", "CLICOLOR_FORCE": "0", "TERM": "dumb", "COLUMNS": "20", "LINES": "5", "HOME": "/nonexistent", "RUST_BACKTRACE": "0",
                       "RUST_LOG": "trace", "COOKLANG_DEBUG": "1"})
+    # ... plus whatever looks like the name of an environment variable in the library's own source
+    import re as _re
+    for root, _d, names in os.walk(os.path.join(REPO, "src")):
+        for nme in names:
+            if nme.endswith(".rs") and nme != "verif_seam.rs":
+                for lit in _re.findall(r'"([A-Z][A-Z0-9_]{2,47})"', open(os.path.join(root, nme), errors="replace").read()):
+                    if "_" in lit or len(lit) >= 6:
+                        other_env.setdefault(lit, "1")
     # ... and in a working directory that contains recipe files named like some ingredient names
     # of the workload (a result may not depend on what exists in the file system either)
     fsenv = os.path.join(b.dir, "fsenv")
@@ -1029,8 +1037,8 @@ def check_c18(tier, seed):
 # --------------------------------------------------------------------------- C11
 
 C11_PLAN = {
-    "quick": dict(runs=400000, enum_files=200, exh_len=7, wide_len=5, budget=600),
-    "thorough": dict(runs=30000000, enum_files=8000, exh_len=11, wide_len=8, budget=5400),
+    "quick": dict(runs=400000, enum_files=200, exh_len=7, wide_len=5, collide_files=128, budget=600),
+    "thorough": dict(runs=30000000, enum_files=8000, exh_len=11, wide_len=8, collide_files=8192, budget=5400),
 }
 
 
@@ -1054,6 +1062,8 @@ def check_c11(tier, seed):
                      "--worker", str(w), "--workers", str(W)], f"d{w}")
         batch.spawn(["c11", "--mode", "enum-lens", "--seed", str(seed), "--runs", "1000" if tier == "thorough" else "10",
                      "--worker", str(w), "--workers", str(W)], f"l{w}")
+        batch.spawn(["c11", "--mode", "collide", "--seed", str(seed), "--runs", str(plan["collide_files"]), "--names", "1000000",
+                     "--worker", str(w), "--workers", str(W)], f"c{w}")
         batch.spawn(["c11", "--mode", "exhaustive", "--alphabet", "ascii7", "--len", str(plan["exh_len"]),
                      "--worker", str(w), "--workers", str(W)], f"x{w}")
         batch.spawn(["c11", "--mode", "exhaustive", "--alphabet", "wide", "--len", str(plan["wide_len"]),
@@ -1067,8 +1077,9 @@ def check_c11(tier, seed):
         os.makedirs(REPLAYS, exist_ok=True)
         json.dump({"property": "C11", "class": "hang", "violations": [{"class": "hang", "key": "", "phase": "c11", "detail": f"worker exceeded {plan['budget']}s; args {args}"}]}, open(p, "w"), indent=1)
         log(f"VIOLATION property=C11 replay={p}")
-    agg = dict(runs=0, executions=0, parsed_ok=0, parse_err=0, ops=0, lookups_checked=0, enumerated_fault_points=0, enumerated_dup_positions=0, exhaustive_strings=0)
+    agg = dict(runs=0, executions=0, parsed_ok=0, parse_err=0, ops=0, lookups_checked=0, enumerated_fault_points=0, enumerated_dup_positions=0, exhaustive_strings=0, collide_names=0)
     fired, err_kinds = {}, {}
+    collide_files = sum(o["runs"] for o in outs if o.get("collide_names"))
     nt_files = []
     samples = []
     for o in outs:
@@ -1103,7 +1114,9 @@ def check_c11(tier, seed):
             "duplicate_positions_note": "files of 3..129 (quick) / 3..1030 (thorough) names or categories in four layouts; for every position p the p-th one repeats a random earlier one and the parse must reject the file; plus, for every name length of 1..130 bytes (thorough: ..300 and the neighbours of 512 ... 65536), eight files with one duplicate or one near-duplicate (same head, different last or middle character; a name equal to a category name) of names of exactly that length, ASCII and two-byte fillers",
             "note": "the write-fault enumeration is exhaustive per file (every write call x {WouldBlock, Ok(0), StorageFull, EINTR} and every split point); the set of files is sampled",
         },
-        "random_runs": agg["runs"] - agg["exhaustive_strings"] - agg["enumerated_dup_positions"],
+        "random_runs": agg["runs"] - agg["exhaustive_strings"] - agg["enumerated_dup_positions"] - collide_files,
+        "birthday_sampling": {"files": collide_files, "names_between_the_two_occurrences": agg["collide_names"],
+                              "note": "each file is `A`, 10^6 distinct names, `A` again and must be rejected; a duplicate table keyed by a b-bit fingerprint of the name forgets A with probability about names/2^b, so this reaches fingerprints of about log2(names) bits; these files are checked directly (not counted as evaluations)"},
         "parsed_ok": agg["parsed_ok"],
         "parse_errors": agg["parse_err"],
         "parse_error_kinds": err_kinds,
